@@ -5,8 +5,13 @@
 
 mod util;
 mod list;
+mod session;
 
 fn main() {
+    // panics of the code under test are data (caught and reported), not noise on stderr
+    if std::env::var("NV_PANIC_TRACE").is_err() {
+        std::panic::set_hook(Box::new(|_| {}));
+    }
     let args: Vec<String> = std::env::args().skip(1).collect();
     if args.is_empty() {
         eprintln!("usage: nv-harness <command> [args]");
@@ -16,6 +21,8 @@ fn main() {
     let rc = match args[0].as_str() {
         "list-replay" => list::replay(rest),
         "list-record" => list::record(rest),
+        "session-run" => session::run(rest),
+        "session-c07" => session::run_c07(rest),
         other => {
             eprintln!("unknown command {other}");
             2
